@@ -78,7 +78,7 @@ macro_rules! small_field_parameters {
             };
             const HALF: $W = half(P as u128, <$W>::BITS) as $W;
             #[cfg(test)]
-            const LOG2_BASE: usize = $base_bits;
+            const LOG2_BASE: usize = $base_bits as usize;
             #[cfg(test)]
             const LOG2_RADIX: usize = <$W>::BITS as usize;
         }
